@@ -307,6 +307,7 @@ func runHarness(l *loaded, hs HarnessSpec, so solveOpts) (res *HarnessResult) {
 	resetTerms()
 	e := newEngine(l, hs)
 	res.eng = e
+	budgetHook = e.checkBudget
 	t0 := time.Now()
 	func() {
 		defer func() {
